@@ -357,8 +357,26 @@ func finish(c *Ctx, pd *propDef) int {
 		}
 	}
 	sort.Strings(vanished)
+	// a function under contract that cannot be verified any more is one violation, not one per obligation
+	unverifiable := map[string]*Item{}
+	for _, it := range c.Items {
+		if it.Kind == "subset" {
+			unverifiable[it.Root] = it
+		}
+	}
+	reportedRoot := map[string]bool{}
 	for _, name := range vanished {
-		it := &Item{Name: name, Kind: "vanished", Status: "failed", Root: name[:strings.Index(name, "/")], Model: "obligation was discharged on the pinned tree and is no longer generated (function, clause or program point gone)"}
+		root := name[:strings.Index(name, "/")]
+		if uv := unverifiable[root]; uv != nil {
+			if !reportedRoot[root] {
+				reportedRoot[root] = true
+				uv.Status = "failed"
+				regressed[uv.Name] = "function under contract can no longer be verified (" + firstLine(uv.Model) + "); its obligations were discharged on the pinned tree"
+				needReplay = append(needReplay, uv)
+			}
+			continue
+		}
+		it := &Item{Name: name, Kind: "vanished", Status: "failed", Root: root, Model: "obligation was discharged on the pinned tree and is no longer generated (function, clause or program point gone)"}
 		regressed[name] = "contract obligation no longer generated"
 		needReplay = append(needReplay, it)
 	}
@@ -380,7 +398,12 @@ func finish(c *Ctx, pd *propDef) int {
 			viols = append(viols, viol{it, oc, "listed finding, but the failing input class changed from `" + kf.InputClass + "`"})
 		}
 	}
+	seenNR := map[string]bool{}
 	for _, it := range needReplay {
+		if seenNR[it.Name] {
+			continue
+		}
+		seenNR[it.Name] = true
 		var oc *ReplayOutcome
 		if outcomes != nil {
 			oc = outcomes[it.Name]
@@ -446,7 +469,7 @@ func finish(c *Ctx, pd *propDef) int {
 			}
 		}
 		if hit {
-			fmt.Printf("KNOWN-FINDING: property=%s %s: %s\n", c.Prop, f.Obligation, f.What)
+			fmt.Printf("KNOWN-FINDING: property=%s %s: %s\n", c.Prop, f.Obligation, printable(f.What))
 		}
 	}
 	for _, v := range viols {
@@ -553,4 +576,18 @@ func sanitizeName(s string) string {
 		out = out[:150] + hashStr(s)
 	}
 	return out
+}
+
+// printable escapes control and non-ASCII bytes so that check output stays text.
+func printable(s string) string {
+	var sb strings.Builder
+	for i := 0; i < len(s); i++ {
+		b := s[i]
+		if b < 0x20 || b >= 0x7f {
+			fmt.Fprintf(&sb, "\\x%02x", b)
+		} else {
+			sb.WriteByte(b)
+		}
+	}
+	return sb.String()
 }
